@@ -15,6 +15,7 @@
   Re-proved by `decide` on every run: dropping the Clip, assigning through `h`, appending to
   `h.preformatted`, mutating the `Logger` in place … break this file.
 -/
+import Glb.Generated.StatusLoggerClone
 import Glb.Props.C03
 
 namespace Glb.Tie.LoggerClone
@@ -69,5 +70,8 @@ theorem isolation_of_code {α : Type} (R : Renderer α) (g : Policy) (k : Kind) 
     h.view (run R (codeClips k) g k (ops ++ more)).heap = renderChain R k chain := by
   rw [code_clips k] at hi ⊢
   exact C03.isolation R g k ops more i h chain hi
+
+/-- the extractor of this area recognised the source as it is on this run (a refusal removes `ok`) -/
+theorem extractor_ok : Glb.Generated.StatusLoggerClone.ok = () := rfl
 
 end Glb.Tie.LoggerClone
